@@ -1,6 +1,7 @@
 """C06 - A Tree's state depends only on where it is, not on how it got there (structural clauses)."""
 from __future__ import annotations
 
+from . import scopes
 from . import lib_tree, lib_guards, lib_module, lib_py
 
 LEVEL = "other"
@@ -13,6 +14,7 @@ EXPLANATION = ("Completeness of tsk_tree_copy / tsk_tree_clear over every array 
 def run(ctx):
     P = ctx.program()
     py = ctx.python()
+    ps, ms = scopes.py_scope("C06"), scopes.module_scope("C06")
     lib_tree.tree_copy_clear(ctx, P)
     lib_tree.index_domains(ctx, P)
     lib_tree.mirror_pairs(ctx, P)
@@ -21,6 +23,7 @@ def run(ctx):
     funcs = {"tsk_tree_seek", "tsk_tree_seek_index", "tsk_tree_check_node", "tsk_tree_set_tracked_samples"}
     seen = lib_guards.analyse(ctx, P, funcs=funcs)
     lib_guards.presence(ctx, seen, funcs=funcs)
-    lib_py.unused_params(ctx, py, mods=("trees",))
-    lib_py.kw_forward(ctx, py, mods=("trees",))
+    lib_module.parsed_used(ctx, P, only=ms)
+    lib_py.unused_params(ctx, py, mods=("trees",), only=ps)
+    lib_py.kw_forward(ctx, py, mods=("trees",), only=ps)
     lib_py.null_index(ctx, py)
